@@ -3,6 +3,7 @@ package main
 import (
 	"fmt"
 	"os"
+	"runtime/debug"
 
 	"github.com/RoaringBitmap/roaring/v2"
 	segment "github.com/blevesearch/scorch_segment_api/v2"
@@ -433,9 +434,68 @@ func checkC05(c *ctx) {
 	c.Rule = "chains (depth <= 3) of merges of 1-4 segments drawn from a pool of related segments (built / persisted+opened / outputs of earlier merges; identical, overlapping and disjoint field lists; empty segments) x deletion bitmaps {nil, empty, random, all} x merge chunk modes; observed: returned doc-number maps, reported size vs file length, Count, Fields, stored visits, DocID, DocNumbers of the re-opened output and the extracted parser's reading of the file; expected = extracted spec_merge; non-trivial = >= 2 inputs and >= 2 survivors"
 	c.Assumptions = append(c.Assumptions, "inputs inside the domain W1-W8; the merged file is observed after re-opening it")
 	parts := []int{pNDocs, pFields, pStored}
-	mergeRounds(c, c.n(110, 2500), false, parts, true, "C05", func(mc *mergeCase, r *mergeResult, spec sx.V) string {
+	if !mergeRounds(c, c.n(110, 2500), false, parts, true, "C05", func(mc *mergeCase, r *mergeResult, spec sx.V) string {
 		return storedAPIFromSpec(c, r.seg, spec)
-	})
+	}) {
+		return
+	}
+	if bad := retainedMaps(c); bad != "" {
+		c.Violation("C05 doc-number maps returned by a merge belong to the caller\n"+bad, false)
+	}
+}
+
+// retainedMaps: the maps returned by a merge of a 3000-document segment are kept while further
+// merges of that size run; they must still be the numbering of their own merge afterwards (expected
+// numbering by construction: survivors consecutive, dropped documents at the all-ones sentinel).
+func retainedMaps(c *ctx) string {
+	old := debug.SetGCPercent(-1)
+	defer debug.SetGCPercent(old)
+	var b zh.Batch
+	for d := 0; d < 3000; d++ {
+		b = append(b, zh.Doc{Fields: []zh.Field{zh.IDField(fmt.Sprintf("r%05d", d)), {Name: "body", Len: 1, Toks: []zh.Tok{{Term: fmt.Sprintf("w%d", d%30), Freq: 1}}}}})
+	}
+	sb, _, err := zh.Build(b, 1026)
+	if err != nil {
+		return "build failed: " + err.Error()
+	}
+	type kept struct {
+		m     []uint64
+		drops map[uint64]bool
+	}
+	var keep []kept
+	for round := 0; round < 3; round++ {
+		drops := map[uint64]bool{}
+		bm := roaring.New()
+		for k := 0; k < 5+round*3; k++ {
+			d := uint64(c.R.Intn(3000))
+			drops[d] = true
+			bm.Add(uint32(d))
+		}
+		path := zh.TmpPath("c05big")
+		maps, _, err := zap.VerifMerge([]segment.Segment{sb}, []*roaring.Bitmap{bm}, path, 1026, nil, nil)
+		os.Remove(path)
+		if err != nil || len(maps) != 1 {
+			return fmt.Sprintf("merge failed: %v", err)
+		}
+		keep = append(keep, kept{maps[0], drops})
+		c.Count("retained_map_merges")
+		for ki, k := range keep {
+			next := uint64(0)
+			for d := uint64(0); d < 3000; d++ {
+				want := next
+				if k.drops[d] {
+					want = ^uint64(0)
+				} else {
+					next++
+				}
+				if k.m[d] != want {
+					return fmt.Sprintf("the doc-number map returned by merge %d (3000 documents, %d deleted), read again after merge %d of the same size returned: entry %d is %d, its merge numbered it %d", ki, len(k.drops), round, d, k.m[d], want)
+				}
+			}
+		}
+	}
+	c.Case("retained-maps", true)
+	return ""
 }
 
 // storedAPIFromSpec checks DocID / DocNumbers / out-of-range visits of a segment against a content.
